@@ -660,7 +660,7 @@ def free_running(ctx, inplace, quick):
             def one(i):
                 od = os.path.join(root, "r%d_%d" % (rno, i))
                 extra = ["--clean_start"] if ("clean_start" in rname and i % 2) else []
-                rc, log = P.run_isoquant(od, base + ["--genedb", ann[anns[i]]] + extra, home=home)
+                rc, log = P.run_isoquant(od, base + ["--genedb", ann[anns[i]]] + extra, home=home, preindex="without index files" not in rname)
                 return od, rc, log
             with ThreadPoolExecutor(n) as ex: res = list(ex.map(one, range(len(anns))))
             ctx.cov["pipeline_runs"] += len(res); ctx.count(evaluations=len(res), nontrivial=len(res), traces=len(res))
